@@ -86,7 +86,11 @@ func panicSite() string {
 }
 
 func rel(f string) string {
-	if r, err := filepath.Rel("/repo", f); err == nil && !strings.HasPrefix(r, "..") {
+	root := os.Getenv("VX_REPO")
+	if root == "" {
+		root = "/repo"
+	}
+	if r, err := filepath.Rel(root, f); err == nil && !strings.HasPrefix(r, "..") {
 		return r
 	}
 	return f
